@@ -791,104 +791,104 @@ func c15LoopCheck(c *Ctx, rule string, pk *packages.Package, fd *ast.FuncDecl, c
 		id, ok := unparen(call.Fun).(*ast.Ident)
 		return ok && cb[info.ObjectOf(id)]
 	}
-		fk := funcKey(relPkg(pk.PkgPath), fd)
-		li := 0
-		walkStack(fd.Body, func(nd ast.Node, st []ast.Node) bool {
-			var body *ast.BlockStmt
-			header := ""
-			switch l := nd.(type) {
-			case *ast.ForStmt:
-				body = l.Body
-				if from >= 0 && c15CountedLoop(c, info, fd, l, from) {
-					header = "counted"
+	fk := funcKey(relPkg(pk.PkgPath), fd)
+	li := 0
+	walkStack(fd.Body, func(nd ast.Node, st []ast.Node) bool {
+		var body *ast.BlockStmt
+		header := ""
+		switch l := nd.(type) {
+		case *ast.ForStmt:
+			body = l.Body
+			if from >= 0 && c15CountedLoop(c, info, fd, l, from) {
+				header = "counted"
+			}
+			if l.Init == nil && l.Post == nil && l.Cond != nil {
+				if call, ok := unparen(l.Cond).(*ast.CallExpr); ok {
+					if o := callee(info, call); o != nil && o.Pkg() != nil && o.Pkg().Path() == "bufio" && o.Name() == "Scan" {
+						header = "scan"
+					}
 				}
-				if l.Init == nil && l.Post == nil && l.Cond != nil {
-					if call, ok := unparen(l.Cond).(*ast.CallExpr); ok {
-						if o := callee(info, call); o != nil && o.Pkg() != nil && o.Pkg().Path() == "bufio" && o.Name() == "Scan" {
-							header = "scan"
+			}
+		case *ast.RangeStmt:
+			body = l.Body
+			if id, ok := unparen(l.X).(*ast.Ident); ok {
+				if v, ok := info.ObjectOf(id).(*types.Var); ok && (isParam(info, fd, id) || v.Parent() != pk.Types.Scope()) {
+					// a parameter or a (type-switch-bound / local) variable: the whole container
+					header = "range"
+					// a local defined as a sub-slice is not the whole container
+					for _, d := range localDefs(info, fd.Body)[v] {
+						if _, ok := unparen(d).(*ast.SliceExpr); ok {
+							header = ""
 						}
 					}
 				}
-			case *ast.RangeStmt:
-				body = l.Body
-				if id, ok := unparen(l.X).(*ast.Ident); ok {
-					if v, ok := info.ObjectOf(id).(*types.Var); ok && (isParam(info, fd, id) || v.Parent() != pk.Types.Scope()) {
-						// a parameter or a (type-switch-bound / local) variable: the whole container
-						header = "range"
-						// a local defined as a sub-slice is not the whole container
-						for _, d := range localDefs(info, fd.Body)[v] {
-							if _, ok := unparen(d).(*ast.SliceExpr); ok {
-								header = ""
-							}
-						}
-					}
-				}
-			default:
-				return true
 			}
-			ev := &c15Eval{info: info, event: isCB}
-			if ev.eventsIn(body) == 0 {
-				return true
-			}
-			li++
-			nLoops++
-			key := fk + ":loop#" + itoa(li)
-			if header == "" {
-				c.Undecided(rule, key, nd.Pos(), "element loop with an unrecognised header (%s): cannot tell that every element is visited — recognised: `for scanner.Scan()`, `for … := range <parameter>`", c.src(nd)[:c15min(60, len(c.src(nd)))])
-				return true
-			}
-			out := c15New()
-			fall := ev.stmts(body.List, map[int]bool{0: true}, out)
-			done := map[int]bool{}
-			for k := range fall {
-				done[k] = true
-			}
-			for k := range out.cont {
-				done[k] = true
-			}
-			var problems []string
-			if out.complex != "" {
-				problems = append(problems, "callback reached through a "+out.complex)
-			}
-			if !c15Only(done, 1) {
-				problems = append(problems, "the callback is invoked "+c15Set(done)+" times per iteration depending on the path (must be exactly once): elements are skipped or delivered twice")
-			}
-			if len(out.brk) > 0 {
-				problems = append(problems, "`break` leaves the loop with elements unread")
-			}
-			for _, rs := range out.rets {
-				rst := pathTo(fd.Body, rs)
-				if inDoneArm(info, rst) {
-					continue
-				}
-				// error exit: last result is not the nil literal and the return is under err != nil
-				last := rs.Results
-				isErr := false
-				if len(last) > 0 {
-					if _, isCall := unparen(last[len(last)-1]).(*ast.CallExpr); isCall {
-						isErr = true // constructs an error (fmt.Errorf/errors.New/…)
-					}
-					if id, ok := unparen(last[len(last)-1]).(*ast.Ident); !ok || id.Name != "nil" {
-						for _, f := range factsOf(guardsAt(info, rst)) {
-							if b, ok := unparen(f.E).(*ast.BinaryExpr); ok && b.Op == token.NEQ && f.True {
-								if id, ok := unparen(b.Y).(*ast.Ident); ok && id.Name == "nil" {
-									isErr = true
-								}
-							}
-						}
-					}
-				}
-				if !isErr {
-					problems = append(problems, "`"+c.src(rs)+"` leaves the loop silently with elements unread (neither the cancellation arm nor an error)")
-				}
-			}
-			if len(problems) > 0 {
-				c.Viol(rule, key, nd.Pos(), "%s: %s", fk, strings.Join(problems, "; "))
-			} else {
-				c.OK(rule, key, nd.Pos(), "%s loop, callback exactly once per iteration, early exit only on cancel/error", header)
-			}
+		default:
 			return true
-		})
+		}
+		ev := &c15Eval{info: info, event: isCB}
+		if ev.eventsIn(body) == 0 {
+			return true
+		}
+		li++
+		nLoops++
+		key := fk + ":loop#" + itoa(li)
+		if header == "" {
+			c.Undecided(rule, key, nd.Pos(), "element loop with an unrecognised header (%s): cannot tell that every element is visited — recognised: `for scanner.Scan()`, `for … := range <parameter>`", c.src(nd)[:c15min(60, len(c.src(nd)))])
+			return true
+		}
+		out := c15New()
+		fall := ev.stmts(body.List, map[int]bool{0: true}, out)
+		done := map[int]bool{}
+		for k := range fall {
+			done[k] = true
+		}
+		for k := range out.cont {
+			done[k] = true
+		}
+		var problems []string
+		if out.complex != "" {
+			problems = append(problems, "callback reached through a "+out.complex)
+		}
+		if !c15Only(done, 1) {
+			problems = append(problems, "the callback is invoked "+c15Set(done)+" times per iteration depending on the path (must be exactly once): elements are skipped or delivered twice")
+		}
+		if len(out.brk) > 0 {
+			problems = append(problems, "`break` leaves the loop with elements unread")
+		}
+		for _, rs := range out.rets {
+			rst := pathTo(fd.Body, rs)
+			if inDoneArm(info, rst) {
+				continue
+			}
+			// error exit: last result is not the nil literal and the return is under err != nil
+			last := rs.Results
+			isErr := false
+			if len(last) > 0 {
+				if _, isCall := unparen(last[len(last)-1]).(*ast.CallExpr); isCall {
+					isErr = true // constructs an error (fmt.Errorf/errors.New/…)
+				}
+				if id, ok := unparen(last[len(last)-1]).(*ast.Ident); !ok || id.Name != "nil" {
+					for _, f := range factsOf(guardsAt(info, rst)) {
+						if b, ok := unparen(f.E).(*ast.BinaryExpr); ok && b.Op == token.NEQ && f.True {
+							if id, ok := unparen(b.Y).(*ast.Ident); ok && id.Name == "nil" {
+								isErr = true
+							}
+						}
+					}
+				}
+			}
+			if !isErr {
+				problems = append(problems, "`"+c.src(rs)+"` leaves the loop silently with elements unread (neither the cancellation arm nor an error)")
+			}
+		}
+		if len(problems) > 0 {
+			c.Viol(rule, key, nd.Pos(), "%s: %s", fk, strings.Join(problems, "; "))
+		} else {
+			c.OK(rule, key, nd.Pos(), "%s loop, callback exactly once per iteration, early exit only on cancel/error", header)
+		}
+		return true
+	})
 	return nLoops
 }
 
